@@ -72,6 +72,11 @@ type Options struct {
 	// makes the obligation inconclusive.
 	CrossSolver string
 	Trace       bool
+	// ReplayWitness (concrete mode, replays only): an existential obligation whose predicate is false
+	// under the concrete assignment is recorded as violated. Differential validation runs leave it
+	// off: there a witness obligation is informational (its predicate may legitimately be false
+	// under one particular assignment).
+	ReplayWitness bool
 	// NoRawRecheck disables the second, raw-form solver query of validity obligations.
 	NoRawRecheck bool
 	// RawTimeoutMs is the timeout of raw-form queries (default 5000).
@@ -1352,7 +1357,7 @@ func (r *Run) Witness(id string, p Pred) (bool, map[string]string) {
 		// "no witness exists" verdict of the symbolic run (the chance of a false negative for a
 		// satisfiable predicate is of the order 1/q)
 		ok := p.eval(nil, r.q)
-		if !ok {
+		if !ok && r.eng.opt.ReplayWitness {
 			worse(o, StViolated, "no witness under the concrete assignment", nil)
 		}
 		return ok, nil
